@@ -57,25 +57,45 @@ def custom_kw(custom):
 STRICT = ["PVL", "ODL", "PDS3"]
 
 
+class UserQuantity:
+    """A caller's quantity class for the decoders' quantity_cls option."""
+
+    def __init__(self, value, units):
+        self.value = value
+        self.units = units
+
+
 def make_parser(config, lexer_fn=None, custom=False):
+    dkw = {}
+    if custom == "decimal":
+        # the decoders' documented options instead of container classes
+        import decimal
+        dkw = {"quantity_cls": UserQuantity}
+        if config != "PDS3":
+            dkw["real_cls"] = decimal.Decimal
+        custom = False
     kw = custom_kw(custom)
     if config == "PVL":
         g = PVLGrammar()
-        return PVLParser(grammar=g, decoder=PVLDecoder(grammar=g),
+        return PVLParser(grammar=g, decoder=PVLDecoder(grammar=g, **dkw),
                          lexer_fn=lexer_fn, **kw)
     if config == "ODL":
         g = ODLGrammar()
-        return ODLParser(grammar=g, decoder=ODLDecoder(grammar=g),
+        return ODLParser(grammar=g, decoder=ODLDecoder(grammar=g, **dkw),
                          lexer_fn=lexer_fn, **kw)
     if config == "PDS3":
         g = PDSGrammar()
-        return ODLParser(grammar=g, decoder=PDSLabelDecoder(grammar=g),
+        return ODLParser(grammar=g, decoder=PDSLabelDecoder(grammar=g, **dkw),
                          lexer_fn=lexer_fn, **kw)
     if config == "ISIS":
         g = ISISGrammar()
-        return OmniParser(grammar=g, decoder=OmniDecoder(grammar=g),
+        return OmniParser(grammar=g, decoder=OmniDecoder(grammar=g, **dkw),
                           lexer_fn=lexer_fn, **kw)
     if config == "default":
+        if dkw:
+            g = OmniGrammar()
+            return OmniParser(grammar=g, decoder=OmniDecoder(grammar=g, **dkw),
+                              lexer_fn=lexer_fn, **kw)
         return OmniParser(lexer_fn=lexer_fn, **kw)
     raise ValueError(config)
 
@@ -113,7 +133,7 @@ def load(config, text, lexer_fn=None, custom=False):
         # (documented module_class/group_class/object_class arguments)
         kw = {} if lexer_fn is None else {"lexer_fn": lexer_fn}
         return core.guarded(lambda: pvl.new.loads(text, **kw), len(text))
-    if config == "default" and lexer_fn is None:
+    if config == "default" and lexer_fn is None and custom != "decimal":
         if custom:
             kw = custom_kw(custom)
             return core.guarded(lambda: pvl.loads(text, **kw), len(text))
